@@ -1,3 +1,4 @@
+import IpcModel.Reach
 /-!
 # L8 `Ideal` — the specification: unbounded FIFO channels whose messages may carry handles
 
@@ -47,24 +48,21 @@ inductive Res
   | invalid                                              -- the program does not hold the handle it uses
 deriving Repr, DecidableEq
 
-/-- channels whose receiver exists: held by the program, or carried by a message queued on such a channel -/
-def reachStep (st : St) (r : List Nat) : List Nat :=
-  (List.range st.chans.length).filter fun c =>
-    match st.chans[c]? with
-    | none => false
-    | some ch =>
-      ch.rx == .held ||
-      (ch.rx == .inMsg && r.any fun d =>
-        match st.chans[d]? with
-        | some chd => chd.queue.any fun m => m.handles.contains (.rcv c)
-        | none => false)
+/-- the program holds the receiver of channel `c` -/
+def rootB (st : St) (c : Nat) : Bool :=
+  match st.chans[c]? with | some ch => ch.rx == .held | none => false
 
-def reachIter (st : St) : Nat → List Nat → List Nat
-  | 0, r => r
-  | n+1, r => reachIter st n (reachStep st r)
+/-- a message queued on channel `d` carries the receiver of channel `c` -/
+def carriesRcv (st : St) (d c : Nat) : Bool :=
+  match st.chans[d]? with | some chd => chd.queue.any fun m => m.handles.contains (.rcv c) | none => false
 
-/-- the set of channels whose receiving end exists -/
-def rxAlive (st : St) : List Nat := reachIter st (st.chans.length + 1) []
+/-- … and that receiver is in transit (not destroyed) -/
+def edgeB (st : St) (d c : Nat) : Bool :=
+  (match st.chans[c]? with | some ch => ch.rx == .inMsg | none => false) && carriesRcv st d c
+
+/-- the set of channels whose receiving end exists: held by the program, or carried by a message queued on such a
+channel (reachability, computed by `Reach.reachG`; `ReachProof.reachG_iff` gives the inductive reading) -/
+def rxAlive (st : St) : List Nat := Reach.reachG st.chans.length (rootB st) (edgeB st)
 
 /-- some sender handle of channel `c` exists: held by the program or inside a message queued on a live channel -/
 def senderExists (st : St) (c : Nat) : Bool :=
